@@ -504,12 +504,19 @@ class MapfileTransformer(Transformer):
 
         depth = 0
         quote = None
+        regexp = False
         for idx, ch in enumerate(exp):
-            if quote:
+            if regexp:
+                # parentheses in a regular expression e.g. /^a\)/ are not grouping
+                if ch == "/":
+                    regexp = False
+            elif quote:
                 if ch == quote:
                     quote = None
             elif ch in ("'", '"', "`"):
                 quote = ch
+            elif ch == "/" and self.starts_regexp(exp, idx):
+                regexp = True
             elif ch == "(":
                 depth += 1
             elif ch == ")":
@@ -519,6 +526,19 @@ class MapfileTransformer(Transformer):
                     return False
 
         return True
+
+    def starts_regexp(self, exp: str, idx: int) -> bool:
+        """
+        Check if the slash at position idx opens a regular expression e.g. "[name] ~ /^a/"
+        (it follows an operator, an opening parenthesis or a comma) rather than
+        being a division sign e.g. "[a] / 2"
+        """
+        before = exp[:idx].rstrip()
+        if not before or before[-1] in "(,~=<>!*+-^&|":
+            return True
+        # a word operator e.g. "[name] LIKE /^a/"
+        word = before[len(before.rstrip("abcdefghijklmnopqrstuvwxyzABCDEFGHIJKLMNOPQRSTUVWXYZ")) :]
+        return word.upper() in ("IN", "NE", "EQ", "LE", "LT", "GE", "GT", "LIKE", "AND", "OR", "NOT")
 
     def add(self, t):
         assert len(t) == 2
